@@ -213,6 +213,55 @@ def task_shapes(ctx):
     ctx.violation('padded_shapes_cover_limits_divisible_and_minimal', dict(config=dict(cases=n), kind='shapes'), dict(cases=[str(b) for b in bad[:5]]), f'padded shape rule violated: {bad[0]}')
 
 
+def task_shapes_symbolic(ctx):
+  """The padded-shape rule decided for ALL grid sizes: the real FastSphericalHarmonics.nodal_shape / modal_shape / _round_to_multiple code runs on
+  SYMBOLIC integers (wavenumber and node counts <= 8192, declared positive); for each enumerated shard layout and base_shape_multiple the solver
+  decides: padded shape >= limits, divisible by (2) base x shards / base y shards, padding smaller than the multiple (minimal).  True division
+  and math.ceil are modelled over the reals (x / m is exact to far better than 1/m for these sizes; float rounding of the quotient is outside)."""
+  import z3
+  from dverif.pysym import SymInt
+  from dverif import smt
+  from dinosaur import spherical_harmonic as sh
+  ctx.encoded(sh._round_to_multiple, sh.FastSphericalHarmonics.modal_shape.func, sh.FastSphericalHarmonics.nodal_shape.func, sh.FastSphericalHarmonics.modal_limits.func,
+              sh.FastSphericalHarmonics.nodal_limits.func)
+  M, L, nlon, nlat = (z3.Int(n) for n in ('M', 'L', 'nlon', 'nlat'))
+  pre = [M >= 1, M <= 8192, L >= 1, L <= 8192, nlon >= 1, nlon <= 8192, nlat >= 1, nlat <= 8192]
+  import itertools as _it
+  for (xs, ys), base in _it.product(((1, 1), (2, 1), (1, 2), (2, 2), (4, 2), (2, 4), (6, 1), (1, 6), (8, 1), (1, 8), (3, 2)), (1, 2, 3, 8, 64)):
+    class FakeMesh:
+      shape = {'x': xs, 'y': ys, 'z': 1}
+    s = sh.FastSphericalHarmonics(SymInt(M, True), SymInt(L, True), SymInt(nlon, True), SymInt(nlat, True), base_shape_multiple=base,
+                                  reverse_einsum_arg_order=False, stacked_fourier_transforms=False)
+    object.__setattr__(s, 'spmd_mesh', FakeMesh())
+    ms, ns = s.modal_shape, s.nodal_shape
+    m0, m1, n0, n1 = ms[0].t, ms[1].t, ns[0].t, ns[1].t
+    good = z3.And(m0 >= 2 * M, m1 >= L, n0 >= nlon, n1 >= nlat,
+                  m0 % (2 * base * xs) == 0, m1 % (base * ys) == 0, n0 % (base * xs) == 0, n1 % (base * ys) == 0,
+                  m0 - 2 * M < 2 * base * xs, m1 - L < base * ys, n0 - nlon < base * xs, n1 - nlat < base * ys)
+    conf = dict(x_shards=xs, y_shards=ys, base_shape_multiple=base, ranges='wavenumbers / nodes in [1, 8192]')
+    v, model = smt.check_z3(pre + [z3.Not(good)], 'QF_LIRA', 60000, want_model=True)
+    name = 'padded_shapes_cover_limits_divisible_and_minimal_for_all_sizes'
+    if v == 'unsat':
+      ctx.clause(name, 'discharged', config=conf, queries=1)
+      continue
+    if v != 'sat':
+      ctx.clause(name, 'inconclusive', config=conf, queries=1); ctx.error(name, f'solver verdict {v}')
+      continue
+    vals = {k: model.eval(t, model_completion=True).as_long() for k, t in (('M', M), ('L', L), ('nlon', nlon), ('nlat', nlat))}; vals['base'] = base
+    real = sh.FastSphericalHarmonics(vals['M'], vals['L'], vals['nlon'], vals['nlat'], base_shape_multiple=vals['base'])
+    object.__setattr__(real, 'spmd_mesh', FakeMesh())
+    rm, rn = real.modal_shape, real.nodal_shape
+    b = vals['base']
+    ok = (rm[0] >= 2 * vals['M'] and rm[1] >= vals['L'] and rn[0] >= vals['nlon'] and rn[1] >= vals['nlat'] and rm[0] % (2 * b * xs) == 0 and rm[1] % (b * ys) == 0 and
+          rn[0] % (b * xs) == 0 and rn[1] % (b * ys) == 0 and rm[0] - 2 * vals['M'] < 2 * b * xs and rm[1] - vals['L'] < b * ys and rn[0] - vals['nlon'] < b * xs and rn[1] - vals['nlat'] < b * ys)
+    ctx.clause(name, 'failed', config=conf, queries=1)
+    if not ok:
+      ctx.violation(name, dict(config=conf, kind='shapes'), dict(inputs=vals, modal_shape=list(rm), nodal_shape=list(rn)),
+                    f'padded shape rule violated for {vals} on {xs}x{ys} shards: modal_shape {rm}, nodal_shape {rn}')
+    else:
+      ctx.error(name, f'counterexample {vals} does not replay on the real code')
+
+
 def make_tasks(tier, seed):
   LS = models.level_sets(seed)
   cfg = dict(M=4, L=5, nlon=12, nlat=6)
@@ -240,6 +289,7 @@ def make_tasks(tier, seed):
   if tier != 'quick':
     tasks.append(dict(name='pe-step-1x2x2-dy3', fn='task_pe', kw=dict(mesh_shape=(1, 2, 2), cfg=cfg_small, levels=LS['dy3'].tolist(), lname='dy3', what='step')))
   tasks.append(dict(name='shapes', fn='task_shapes', kw={}))
+  tasks.append(dict(name='shapes-symbolic', fn='task_shapes_symbolic', kw={}))
   return tasks
 
 
